@@ -411,6 +411,7 @@ macro_rules! is_il {
             slc.get(next).map_or(false, |&x| $self.is_digit(x))
         } else {
             slc.get(prev).map_or(true, |&x| !$self.is_digit_separator(x))
+                && slc.get(next).map_or(true, |&x| !$self.is_digit_separator(x))
         }
     }};
 
